@@ -73,15 +73,22 @@ IsTZ(z) == \/ z = <<>>
            \/ /\ Len(z) = 6 /\ z[1] \in {43, 45} /\ z[4] = 58
               /\ IsDigit(z[2]) /\ IsDigit(z[3]) /\ IsDigit(z[5]) /\ IsDigit(z[6])
               /\ (Num2(z, 2) < 14 \/ (Num2(z, 2) = 14 /\ Num2(z, 5) = 0)) /\ Num2(z, 5) < 60
-\* four-digit years only (longer years are legal XSD but never generated)
+\* years of four or more digits (no leading zero beyond four, never 0000), as XSD 1.0 part 2, 3.2.9.1 says
+RECURSIVE DigitRun(_, _)
+DigitRun(s, i) == IF i <= Len(s) /\ IsDigit(s[i]) THEN DigitRun(s, i + 1) ELSE i - 1      \* last index of the leading digit run
+RECURSIVE NumMod(_, _, _, _)
+NumMod(s, i, n, acc) == IF i > n THEN acc ELSE NumMod(s, i + 1, n, (acc * 10 + (s[i] - 48)) % 400)    \* the year modulo 400 decides Leap
 IsDateLex(s0) ==
   LET s == IF s0 # <<>> /\ s0[1] = 45 THEN Tail(s0) ELSE s0
-  IN /\ Len(s) >= 10
-     /\ \A i \in {1, 2, 3, 4, 6, 7, 9, 10} : IsDigit(s[i])
-     /\ s[5] = 45 /\ s[8] = 45
-     /\ LET y == Num4(s, 1)  m == Num2(s, 6)  d == Num2(s, 9)
-        IN y >= 1 /\ m >= 1 /\ m <= 12 /\ d >= 1 /\ d <= DaysIn(y, m)
-     /\ IsTZ(SubSeq(s, 11, Len(s)))
+      n == DigitRun(s, 1)
+  IN /\ n >= 4 /\ Len(s) >= n + 6
+     /\ (n > 4 => s[1] # 48)
+     /\ \E i \in 1..n : s[i] # 48
+     /\ \A i \in {n + 2, n + 3, n + 5, n + 6} : IsDigit(s[i])
+     /\ s[n + 1] = 45 /\ s[n + 4] = 45
+     /\ LET y == NumMod(s, 1, n, 0)  m == Num2(s, n + 2)  d == Num2(s, n + 5)
+        IN m >= 1 /\ m <= 12 /\ d >= 1 /\ d <= DaysIn(IF y = 0 THEN 400 ELSE y, m)
+     /\ IsTZ(SubSeq(s, n + 7, Len(s)))
 
 \* ---- membership ------------------------------------------------------------
 RECURSIVE InLex(_, _)
